@@ -272,7 +272,9 @@ func (c *evalCtx) eval(x *SQLExpr) SQLVal {
 			return SQLVal{Any: true}
 		}
 		null := Or(a.Null, b.Null)
-		return SQLVal{T: Ite(null, nullB, App(SBytes, "b.concat", a.T, b.T)), Null: null}
+		cc := App(SBytes, "b.concat", a.T, b.T)
+		c.st.fact(Not(Eq(cc, nullB)))
+		return SQLVal{T: Ite(null, nullB, cc), Null: null}
 	case "+", "-":
 		a := c.eval(x.Args[0])
 		b := c.eval(x.Args[1])
@@ -655,8 +657,12 @@ func (e *Engine) execStmt(st *State, stmt *SQLStmt, params *sqlParams, handle, t
 			// AUTOINCREMENT: the new id was never used before (assumed): the collection starts empty
 			id := e.fresh(st, "newcoll.id", SInt)
 			st.assume(Gt(id, IntLit(0)))
-			st.assume(mkT(fmt.Sprintf("(forall ((k Str)) (! (not (r.present (select %s (mkId %s k)))) :pattern ((select %s (mkId %s k)))))",
-				st.g.Docs.S, id.S, st.g.Docs.S, id.S), SBool))
+			{
+				docsAt, nid := st.g.Docs, id
+				st.bulk = append(st.bulk, func(st *State, idx Term) Term {
+					return Implies(Eq(Acc(SInt, "d.coll", idx), nid), Not(rowPresent(Select(docsAt, idx, SRow))))
+				})
+			}
 			st.g.CollLastCas = Store(st.g.CollLastCas, id, IntLit(0))
 			one := IntLit(1)
 			return e.newResult(st, &one, &id), TFalse
@@ -684,8 +690,12 @@ func (e *Engine) execStmt(st *State, stmt *SQLStmt, params *sqlParams, handle, t
 			cid := App(SInt, "collid", scope.T, name.T)
 			e.needCollid = true
 			nd := e.fresh(st, "docs.drop", SDocs)
-			st.assume(mkT(fmt.Sprintf("(forall ((i DocId)) (! (= (select %s i) (ite (= (d.coll i) %s) ABSENTROW (select %s i))) :pattern ((select %s i))))",
-				nd.S, cid.S, st.g.Docs.S, nd.S), SBool))
+			{
+				docsAt := st.g.Docs
+				st.bulk = append(st.bulk, func(st *State, idx Term) Term {
+					return Eq(Select(nd, idx, SRow), Ite(Eq(Acc(SInt, "d.coll", idx), cid), mkT("ABSENTROW", SRow), Select(docsAt, idx, SRow)))
+				})
+			}
 			st.g.Docs = nd
 			info.CollTerm = cid
 			st.addTrace(TraceEv{Kind: "dropcoll", Terms: map[string]Term{"cid": cid}})
@@ -752,25 +762,40 @@ func (e *Engine) execDocs(st *State, c *evalCtx, stmt *SQLStmt, info *StmtInfo) 
 			n := Ite(cond, IntLit(1), IntLit(0))
 			return e.newResult(st, &n, nil), TFalse
 		}
-		// bulk
+		// bulk: the new table is defined pointwise; the definition is instantiated on every DocId term of the
+		// obligation (addressed row, Skolem "other" row) instead of being asserted with a quantifier
 		nd := e.fresh(st, "docs.bulk", SDocs)
-		iv := mkT("i", SDocId)
-		old := Select(docs, iv, SRow)
-		c.row, c.id = old, iv
-		cond := And(rowPresent(old), c.where(stmt.Where))
-		var nrow Term
-		if stmt.Kind == "delete" {
-			nrow = mkT("ABSENTROW", SRow)
-		} else {
-			var err error
-			nrow, err = c.applySets(old, stmt.Sets)
-			if err != nil {
-				st.incomplete = err.Error()
+		{
+			docsAt := docs
+			params := c.params
+			kind := stmt.Kind
+			where := stmt.Where
+			sets := stmt.Sets
+			var setErr error
+			inst := func(st *State, idx Term) Term {
+				cc := &evalCtx{e: e, st: st, params: params, table: "documents"}
+				old := Select(docsAt, idx, SRow)
+				cc.row, cc.id = old, idx
+				cond := And(rowPresent(old), cc.where(where))
+				var nrow Term
+				if kind == "delete" {
+					nrow = mkT("ABSENTROW", SRow)
+				} else {
+					nrow, setErr = cc.applySets(old, sets)
+					if setErr != nil {
+						return TTrue
+					}
+				}
+				return Eq(Select(nd, idx, SRow), Ite(cond, nrow, old))
+			}
+			// check the SET list once
+			inst(st, mkT("probe!id", SDocId))
+			if setErr != nil {
+				st.incomplete = setErr.Error()
 				return nil, TFalse
 			}
+			st.bulk = append(st.bulk, inst)
 		}
-		st.assume(mkT(fmt.Sprintf("(forall ((i DocId)) (! (= (select %s i) %s) :pattern ((select %s i))))",
-			nd.S, Ite(cond, nrow, old).S, nd.S), SBool))
 		st.g.Docs = nd
 		info.Keyed = false
 		// number of rows changed: uninterpreted count
@@ -912,8 +937,20 @@ func (e *Engine) queryRow(st *State, stmt *SQLStmt, params *sqlParams, handle, t
 			acond := And(rowPresent(c.row), c.where(stmt.Where))
 			if !wv.Any && !av.Any {
 				st.assume(Implies(Not(isnull), And(wcond, Eq(m, wv.T))))
-				st.assume(mkT(fmt.Sprintf("(forall ((i DocId)) (! (=> %s (and (not %s) (<= %s %s))) :pattern ((select %s i))))",
-					acond.S, isnull.S, m.S, av.T.S, st.g.Docs.S), SBool))
+				{
+					docsAt, params, where, arg := st.g.Docs, params, stmt.Where, stmt.Sel[0].Expr.Args[0]
+					st.bulk = append(st.bulk, func(st *State, idx Term) Term {
+						cc := &evalCtx{e: e, st: st, params: params, table: "documents"}
+						cc.row, cc.id = Select(docsAt, idx, SRow), idx
+						v := cc.eval(arg)
+						if v.Any {
+							return TTrue
+						}
+						return Implies(And(rowPresent(cc.row), cc.where(where)), And(Not(isnull), Le(m, v.T)))
+					})
+				}
+				_ = acond
+				_ = av
 			}
 			rr.Found = TTrue
 			rr.Cols = []SQLVal{{T: m, Null: isnull}}
